@@ -13,6 +13,7 @@ mod sx;
 mod astdump;
 mod c05;
 mod c06;
+mod c07;
 mod c08;
 mod c15;
 mod c16;
@@ -104,6 +105,7 @@ fn main() {
     match group.as_str() {
         "c05" => c05::run(&args, &mut out),
         "c06" => c06::run(&args, &mut out),
+        "c07" => c07::run(&args, &mut out),
         "c08" => c08::run(&args, &mut out),
         "c10" => c08::run_c10(&args, &mut out),
         "scope" => scope::run(&args, &mut out),
